@@ -88,6 +88,8 @@ func main() {
 	switch os.Args[1] {
 	case "mappers":
 		mappers()
+	case "options":
+		options()
 	case "mapper-one":
 		// replay of one witness WITHOUT recover: exit status and stderr are the observation
 		mapperOne(os.Args[2:])
